@@ -1,82 +1,7 @@
 (* model: wire *)
+(* include: wireparse *)
 (* model side of harness bin `wire` (formats: harness/src/wire.rs); float arguments arrive
    as the hex of std's Display text instead of bit patterns *)
-
-let unhex0 s = if s = "_" then [] else unhex s
-let hex0 l = if l = [] then "_" else hex l
-
-let n_of_dec s = match parse_N (str_of_bytes s) with Some n -> n | None -> failwith ("bad N " ^ s)
-let z_of_dec s = match parse_Z (str_of_bytes s) with Some z -> z | None -> failwith ("bad Z " ^ s)
-let dec_of_n n = let b = Buffer.create 8 in List.iter (fun c -> Buffer.add_char b (Char.chr (int_of_n c))) (render_N n); Buffer.contents b
-
-let split2 c s =
-  match String.index_opt s c with
-  | Some i -> (String.sub s 0 i, String.sub s (i + 1) (String.length s - i - 1))
-  | None -> failwith ("expected '" ^ String.make 1 c ^ "' in " ^ s)
-
-let lst s f = if s = "-" then [] else List.map f (String.split_on_char ';' s)
-
-let parse_dur s = let (a, b) = split2 '.' s in { secs = n_of_dec a; nanos = n_of_dec b }
-
-let parse_kind = function
-  | "c" -> Counter | "ms" -> Timer | "g" -> Gauge | "m" -> Meter | "h" -> Histogram
-  | "d" -> Distribution | "s" -> SetK | k -> failwith ("bad kind " ^ k)
-
-let parse_arg s =
-  if s = "incr" then AI64 (z_of_dec "1") else if s = "decr" then AI64 (z_of_dec "-1") else
-  let (ty, v) = split2 ':' s in
-  match ty with
-  | "i64" -> AI64 (z_of_dec v) | "i32" -> AI32 (z_of_dec v)
-  | "u64" -> AU64 (n_of_dec v) | "u32" -> AU32 (n_of_dec v)
-  | "f64" -> AF64 (unhex0 v)
-  | "dur" -> ADur (parse_dur v)
-  | "vu64" -> AVecU64 (lst v n_of_dec)
-  | "vf64" -> AVecF64 (lst v unhex0)
-  | "vdur" -> AVecDur (lst v parse_dur)
-  | "user" ->
-    let (var, w) = split2 ':' v in
-    AUser (match var with
-      | "s" -> Signed (z_of_dec w) | "ps" -> PackedSigned (lst w z_of_dec)
-      | "u" -> Unsigned (n_of_dec w) | "pu" -> PackedUnsigned (lst w n_of_dec)
-      | "f" -> Float (unhex0 w) | "pf" -> PackedFloat (lst w unhex0)
-      | _ -> failwith "bad user variant")
-  | _ -> failwith ("bad arg " ^ s)
-
-let parse_ops s =
-  List.map (fun t ->
-    let r = String.sub t 1 (String.length t - 1) in
-    match t.[0] with
-    | 't' -> let (k, v) = split2 ':' r in WithTag (unhex0 k, unhex0 v)
-    | 'v' -> WithTagValue (unhex0 r)
-    | 'c' -> WithContainerId (unhex0 r)
-    | 'T' -> WithTimestamp (n_of_dec r)
-    | 'r' -> WithSamplingRate (unhex0 r)
-    | _ -> failwith ("bad op " ^ t)) (split_on ',' s)
-
-let parse_dtags s =
-  List.map (fun t ->
-    let r = String.sub t 1 (String.length t - 1) in
-    if t.[0] = 'k' then let (k, v) = split2 ':' r in (Some (unhex0 k), unhex0 v)
-    else (None, unhex0 r)) (split_on ',' s)
-
-let parse_script s =
-  List.map (fun t ->
-    if t = "a" then Accept
-    else let (k, id) = split2 '.' (String.sub t 1 (String.length t - 1)) in
-      Refuse (n_of_int (int_of_string k), n_of_int (int_of_string id))) (split_on ',' s)
-
-let parse_form = function "T" -> TrySend | "P" -> Plain | "Q" -> Quiet | f -> failwith ("bad form " ^ f)
-
-let show_err = function
-  | EInvalid -> "einv"
-  | EIo (k, id) -> Printf.sprintf "eio:%d.%d" (int_of_n k) (int_of_n id)
-
-let show_outcome o =
-  let ret = match o.o_ret with
-    | ROkMetric l -> "ok:" ^ hex0 l | RError e -> show_err e | RUnit -> "unit" in
-  let em = if o.o_emitted = [] then "~" else String.concat "+" (List.map hex0 o.o_emitted) in
-  let hd = if o.o_handled = [] then "~" else String.concat "+" (List.map show_err o.o_handled) in
-  ret ^ "," ^ em ^ "," ^ hd
 
 let rec take n l = if n = 0 then [] else match l with [] -> [] | x :: r -> x :: take (n - 1) r
 let rec drop n l = if n = 0 then l else match l with [] -> [] | _ :: r -> drop (n - 1) r
